@@ -21,7 +21,7 @@ set_option linter.unusedVariables false
 set_option linter.unnecessarySeqFocus false
 namespace Bridge
 variable {α : Type} [Field α] [LinearOrder α] [IsStrictOrderedRing α]
-  [HasSqrt α] [HasExp α] [HasLog α] [HasSin α] [HasCos α] [HasAsin α] [HasRpow α] [HasPi α] [HasRound α] [HasFloor α]
+  [HasSqrt α]
 
 section
 open Ladim.Sed
